@@ -1,5 +1,6 @@
 import Driver.SimCmd
 import Driver.UpdCmd
+import Driver.LexCmd
 /-!
 # Line-protocol driver over the executable models
 
@@ -15,6 +16,7 @@ def step (s : DState) (line : String) : DState × String :=
   match line.trimAscii.toString.splitOn " " with
   | "sim" :: args => let (st, out) := simStep' s.sim args; ({ s with sim := st }, out)
   | "upd" :: args => (s, updStep args)
+  | ["lex", h] => (s, lexLine h)
   | _ => (s, "bad-op")
 
 partial def loop (h : IO.FS.Stream) (out : IO.FS.Stream) (s : DState) : IO Unit := do
